@@ -688,7 +688,10 @@ class FileSystemProvider(Provider):                     # pylint: disable=too-ma
 
     def hash_data(self, file_like) -> bytes:
         with self._api():
-            return self._fast_hash_data(file_like)[0]
+            # must agree with hash_oid()/info.hash, which hash the whole file (the prefix+suffix
+            # "fast hash" is only a change detector for the cache)
+            file_like.seek(0)
+            return get_hash(file_like)
 
     def info_path(self, path: str, use_cache=True) -> typing.Optional[OInfo]:
         return self.__info_path(path, None, canonicalize=True)
